@@ -104,7 +104,8 @@ SPEC = Spec(
         "in the regenerated Config.Validate statements the feature gate test `!AllowNoPipelines.IsEnabled()` is taken as true (gate at its default) and the signal switch of "
         "pipelines.Config.Validate is only compared with its reviewed clause list (C13_signal_switch_as_reviewed)",
         "the four custom Unmarshal methods of service::telemetry (telemetry.Config, v0.3.0 migration types) are fingerprinted and probed (unknown keys at 24 positions incl. list "
-        "elements, 12 written settings) but not modelled; open finding C13/strict/unknown-key-panics-remain-interface-field (otelconf AdditionalProperties) is harness-level",
+        "elements, 12 written settings, every sibling setting of logs/traces/metrics written at once in the v0.3.0 AND the v0.2.0 spelling that takes the migration fallback) and the "
+        "field mapping of the v0.2.0 -> v0.3.0 conversion is regenerated data (C13_migration_fields_correspond: same-name fields), but they are not modelled as decode functions; open finding C13/strict/unknown-key-panics-remain-interface-field (otelconf AdditionalProperties) is harness-level",
         "C13_strict (hand Schema language, tied by the dec differential) and C13_strict_ks / C13_strict_builtin (regenerated KS schemas) return no offending path: 'an error naming the "
         "offending entry' is observed by the harness (strings.Contains(err, key)) for unknown keys; for reference/shape errors it is proved (C13_refs_names_*, C13_shape_names_duplicate)",
         "C13_instances_independent is a statement about the loadAll model (fresh default per id); its differential feeds the PRISTINE factory default per type and lets the model decide "
